@@ -133,7 +133,7 @@ func genTags(tier string, seed uint64) {
 	}
 	var ts []reflect.Type
 	for _, v := range []interface{}{Inner{}, (*Inner)(nil), (***Inner)(nil), []*Inner{}, WithPtr{}, Emb{}, HasShape{}, []Shape{}, TrNum(0), []TrNum{},
-		[2]TrBytes{}, map[string]*Rec{}, []interface{}{}, map[string]interface{}{}, Circle{}, map[TrNum]int{}, TrSq{}, []TrSq{}, map[string]TrSq{}} {
+		[2]TrBytes{}, map[string]*Rec{}, []interface{}{}, map[string]interface{}{}, Circle{}, map[TrNum]int{}, TrSq{}, []TrSq{}, map[string]TrSq{}, TrOpt{}, []TrOpt{}, []TrMap{}} {
 		ts = append(ts, reflect.TypeOf(v))
 	}
 	ts = append(ts, reflect.TypeOf((*interface{})(nil)).Elem())
